@@ -586,6 +586,13 @@ impl Operator for ConvIntegerToFloat {
     }
 }
 
+/// Verification hook (only with `--cfg rten_verif`): the im2col offset-table builder.
+#[cfg(rten_verif)]
+#[doc(hidden)]
+pub mod verif_conv {
+    pub use super::im2col::build_im2col;
+}
+
 #[cfg(test)]
 mod tests {
     use std::error::Error;
